@@ -81,6 +81,31 @@ M = [
      "  while (auto* w = local.pop_front()) {\n    w->resume_(w);\n  }",
      "  if (auto* w = local.pop_front()) {\n    w->resume_(w);\n  }",
      "v2 event: set() resumes only the first drained waiter"),
+    # ---- io_uring_context (C14 / C07 over the ring model)
+    ("m30", "C14", "include/unifex/linux/io_uring_context.hpp",
+     "    static void on_read_complete(operation_base* op) noexcept {\n      auto& self = *static_cast<operation*>(op);\n      if (self.refCount_.fetch_sub(1, std::memory_order_acq_rel) != 1) {\n        // stop callback is running, must complete the op\n        return;\n      }\n      self.stopCallback_.destruct();\n      // A transfer that has already happened is reported as such even if stop\n      // was requested meanwhile; otherwise the bytes would be silently lost.\n      if (self.result_ < 0 &&\n          get_stop_token(self.receiver_).stop_requested()) {",
+     "    static void on_read_complete(operation_base* op) noexcept {\n      auto& self = *static_cast<operation*>(op);\n      if (self.refCount_.fetch_sub(1, std::memory_order_acq_rel) != 1) {\n        // stop callback is running, must complete the op\n        return;\n      }\n      self.stopCallback_.destruct();\n      if (get_stop_token(self.receiver_).stop_requested()) {",
+     "io_uring read: done reported although bytes were transferred (reverts fix 56373d1 for reads)"),
+    ("m31", "C14", "source/linux/io_uring_context.cpp",
+     "        // Skip processing this item and let the loop check\n        // for the remote-queued items next time around.\n        remoteQueueReadSubmitted_ = false;",
+     "        // Skip processing this item and let the loop check\n        // for the remote-queued items next time around.",
+     "io_uring: remoteQueueReadSubmitted_ never cleared after the eventfd poll completes (remote work lost)"),
+    ("m33", "C07", "source/linux/io_uring_context.cpp",
+     "    while (!timers_.empty() && timers_.top()->dueTime_ <= now) {\n      schedule_at_operation* item = timers_.pop();\n\n      LOGX(\"dequeued elapsed timer %p\\n\", (void*)item);\n\n      if (item->canBeCancelled_) {\n        auto oldState = item->state_.fetch_add(\n            schedule_at_operation::timer_elapsed_flag,",
+     "    while (!timers_.empty() && timers_.top()->dueTime_ <= now + std::chrono::milliseconds(1)) {\n      schedule_at_operation* item = timers_.pop();\n\n      LOGX(\"dequeued elapsed timer %p\\n\", (void*)item);\n\n      if (item->canBeCancelled_) {\n        auto oldState = item->state_.fetch_add(\n            schedule_at_operation::timer_elapsed_flag,",
+     "io_uring timers reaped up to 1 ms early"),
+    ("m34", "C14", "include/unifex/linux/io_uring_context.hpp",
+     "    void request_stop() noexcept {\n      if (char expected = 1; !refCount_.compare_exchange_strong(\n              expected, 2, std::memory_order_relaxed)) {\n        // lost race with on_read_complete",
+     "    void request_stop() noexcept {\n      if (char expected = 1; !refCount_.compare_exchange_strong(\n              expected, 1, std::memory_order_relaxed)) {\n        // lost race with on_read_complete",
+     "io_uring read: cancel does not take its reference (read CQE and cancel CQE both complete the op)"),
+    ("m35", "C14", "source/linux/mmap_region.cpp",
+     "  if (size_ > 0) {\n    ::munmap(ptr_, size_);\n  }",
+     "  if (size_ > 4096) {\n    ::munmap(ptr_, size_);\n  }",
+     "mmap_region: small mappings are never unmapped"),
+    ("m36", "C14", "include/unifex/linux/io_uring_context.hpp",
+     "        sqe.opcode = IORING_OP_READV;\n        sqe.fd = fd_;\n        sqe.off = offset_;",
+     "        sqe.opcode = IORING_OP_READV;\n        sqe.fd = fd_;\n        sqe.off = 0;",
+     "io_uring read_some_at ignores the offset"),
 ]
 
 
